@@ -3,9 +3,11 @@
    OCaml's); no Extract Constant / Extract Inductive of our own: N, positive, nat, byte stay
    inductive. *)
 From Coq Require Import ExtrOcamlBasic.
-Require Import RV.Model.Bytes RV.Gen.Tables RV.Model.Tag RV.Model.Message RV.Spec.RefCodec.
+Require Import RV.Model.Bytes RV.Gen.Tables RV.Model.Tag RV.Model.Message RV.Spec.RefCodec RV.Model.Sha512 RV.Model.Merkle RV.Spec.RefMerkle.
 Extraction Language OCaml.
 Extraction "Extract/model.ml"
   all_tags tag_wire tag_rank tag_nested tag_display
   from_bytes add_field get_field encode encode_framed encoded_size calculate_padding_length to_string
-  ref_decode canon.
+  ref_decode canon
+  sha512 node_len tree_new batches root_from_paths chunks
+  s_root s_path s_recompute.
